@@ -24,16 +24,7 @@ def jobs(rng, thorough):
 def run(ctx: core.Ctx):
     ctx.lean_stage(extra_props=("C06b",))
     results = b2check.run_b2(ctx, jobs, ["C06", "L5run"], label="subunit initialisation")
-    # tie of the L5 dialogue model: every eligible run (one object, receiver = function of the command text) must be a run of the model
-    l5 = [r.get("l5") or {"l5": "SKIP", "why": "no verdict"} for r in results]
-    for v in l5:
-        ctx.count("l5:" + v["l5"] + (":" + str(v.get("why")) if v["l5"] == "SKIP" else ""))
-    ctx.cov["l5_runs_accepted_by_dialogue_model"] = sum(1 for v in l5 if v["l5"] == "ACCEPT")
-    rej = [(j, v) for j, v in zip(jobs_cache, l5) if v["l5"] == "REJECT"]
-    ctx.cov["l5_runs_rejected_by_dialogue_model"] = len(rej)
-    if rej and not ctx.violations:
-        (spec, seed, pre), v = rej[0]
-        ctx.correspondence_broken("L5 dialogue model: a real initialize() run is not a run of the model", {"count": len(rej), "first": {"spec": spec, "seed": seed, "preempt": pre, "verdict": v}})
+    b2check.l5_fold(ctx, results, "SubunitBase.initialize()")
     ctx.info["rule"] = ("23 classes x devices answering a random subset of functions with valid values, unsolicited reports, latencies 0..1 s, devices that never answer the sync query or fall silent; each under a seeded schedule, some with extra line-level preemptions; a case = one schedule; non-trivial = distinct (spec, seed)")
     return ctx.finish()
 
